@@ -116,6 +116,115 @@ class SymFactory:
         self.I.assume(self.I.truth(cond))
         return None
 
+    def enum_in(self, name, cls, allowed):
+        v = self._reg(name, z3.Int(name))
+        ms = self.I.enum_members(cls)
+        self.I.assume(z3.Or(*[v == m.index for m in allowed]))
+        return SEnum(cls, v)
+
+    def cat_pred(self, name, cls):
+        """an arbitrary predicate on a finite enum == membership in an arbitrary subset"""
+        S = self.enum_set(name, cls)
+        I = self.I
+        fn = NativeFn(lambda c: I.contains(S, c), name)
+        fn.members = S
+        return fn
+
+    def str_fn(self, name):
+        """an arbitrary function str -> str (uninterpreted)"""
+        from .values import to_z3_string
+        F = z3.Function(name, z3.StringSort(), z3.StringSort())
+        return NativeFn(lambda x: SStr([('sym', F(to_z3_string(x)))]), name)
+
+    def seq(self, name, builder, inv=None, pair_inv=None, max_len=None):
+        """a list of unknown length whose elements are built by builder(element factory)"""
+        from .seq import SeqSource, SSeq
+        I = self.I
+        outer = self
+
+        def elem_builder(suffix):
+            ef = SymElemFactory(I, f'{name}[{suffix}].')
+            e = I.call(builder, [ef], {})
+            ef.value = e
+            elem_builder.factories[suffix] = ef
+            return e
+        elem_builder.factories = {}
+
+        def full_inv(e):
+            from .interp import _and
+            acc = True
+            for suffix, ef in elem_builder.factories.items():
+                if ef.value is e:
+                    for c in ef.constraints:
+                        acc = _and(acc, c)
+            if inv is not None:
+                acc = _and(acc, I.truth(I.call(inv, [e], {})))
+            return acc
+        src = SeqSource(name, elem_builder, full_inv, (lambda a, b: I.call(pair_inv, [a, b], {})) if pair_inv is not None else None)
+        self._reg(f'{name}.len', src.length)
+        I.assume(src.length >= 0)
+        if max_len is not None:
+            I.assume(src.length <= max_len)
+        return SSeq(src)
+
+
+class SymElemFactory:
+    """factory for the canonical elements of a symbolic sequence: constraints become the element invariant"""
+    _pyvc_native = True
+    symbolic = True
+
+    def __init__(self, I, prefix):
+        self.I, self.prefix = I, prefix
+        self.constraints = []
+        self.value = None
+
+    def _reg(self, name, var):
+        self.I.input_vars[self.prefix + name] = var
+        return var
+
+    def int(self, name, lo=None, hi=None):
+        v = self._reg(name, z3.Int(self.prefix + name))
+        if lo is not None:
+            self.constraints.append(v >= lo)
+        if hi is not None:
+            self.constraints.append(v <= hi)
+        return v
+
+    def bool(self, name):
+        return self._reg(name, z3.Bool(self.prefix + name))
+
+    def enum(self, name, cls):
+        v = self._reg(name, z3.Int(self.prefix + name))
+        self.constraints.append(z3.And(v >= 0, v < len(self.I.enum_members(cls))))
+        return SEnum(cls, v)
+
+    def enum_in(self, name, cls, allowed):
+        v = self._reg(name, z3.Int(self.prefix + name))
+        self.constraints.append(z3.Or(*[v == m.index for m in allowed]))
+        return SEnum(cls, v)
+
+    def str_sym(self, name, corpus=None):
+        v = self._reg(name, z3.String(self.prefix + name))
+        return SStr([('sym', v)])
+
+    def new(self, cls, fields, ctor=None):
+        o = SObj(cls, False)
+        for k, v in fields.items():
+            o.fields[k] = v
+        return o
+
+    def assume(self, cond):
+        from .interp import zbool
+        t = self.I.truth(cond)
+        if t is not True:
+            self.constraints.append(zbool(t))
+
+    def seq(self, name, builder, inv=None, pair_inv=None, max_len=None):
+        # a sequence inside an element (e.g. the sub-tokens of one note of a chord): its names carry the element suffix
+        outer = SymFactory(self.I)
+        outer._reg = lambda n, v: self._reg(n[len(self.prefix):] if n.startswith(self.prefix) else n, v)
+        return SymFactory.seq(outer, self.prefix + name, builder, inv, pair_inv, max_len)
+
 
 class ConcreteFactory:
     """Concrete factory for replay (values from a solver model) and for bounded search (values from an enumerator)."""
@@ -201,6 +310,87 @@ class ConcreteFactory:
     def assume(self, cond):
         if not cond:
             self.rejected = True
+
+    def enum_in(self, name, cls, allowed):
+        ms = list(cls)
+        allowed = list(allowed)
+        i = self._get(name, lambda: ms.index(self.rng.choice(allowed)) if self.rng else ms.index(allowed[0]))
+        if not isinstance(i, int) or not (0 <= i < len(ms)) or ms[i] not in allowed:
+            self.rejected = True
+            return allowed[0]
+        return ms[i]
+
+    def cat_pred(self, name, cls):
+        S = self.enum_set(name, cls)
+        fn = lambda c: c in S
+        fn.members = S
+        return fn
+
+    def str_fn(self, name):
+        return lambda x: '<' + x + '>'
+
+    def seq(self, name, builder, inv=None, pair_inv=None, max_len=None):
+        """list from a model: explicit name.len + name[k].*, or the canonical elements name[j].*, name[i].* of a pointwise
+        counterexample (in that order, see DESIGN 5.2), or random."""
+        n = self.values.get(f'{name}.len')
+        suffixes = None
+        has_i = any(k.startswith(f'{name}[i].') for k in self.values)
+        has_j = any(k.startswith(f'{name}[j].') for k in self.values)
+        explicit = any(k.startswith(f'{name}[0].') for k in self.values)
+        if explicit and isinstance(n, int):
+            suffixes = [str(k) for k in range(n)]
+        elif has_i or has_j:
+            suffixes = (['j'] if has_j else []) + (['i'] if has_i else [])
+        elif self.rng is not None:
+            hi = 4 if max_len is None else min(4, max_len)
+            suffixes = [str(k) for k in range(self.rng.randint(0, hi))]
+        else:
+            suffixes = []
+        out = []
+        for sfx in suffixes:
+            ef = ConcreteElemFactory(self, f'{name}[{sfx}].')
+            e = builder(ef)
+            if inv is not None and not inv(e):
+                self.rejected = True
+            out.append(e)
+        if pair_inv is not None:
+            for a in range(len(out)):
+                for b in range(len(out)):
+                    if a != b and not pair_inv(out[a], out[b]):
+                        self.rejected = True
+        self.used[f'{name}.len'] = len(out)
+        return out
+
+
+class ConcreteElemFactory:
+    symbolic = False
+
+    def __init__(self, parent, prefix):
+        self.parent, self.prefix = parent, prefix
+
+    def int(self, name, lo=None, hi=None):
+        return self.parent.int(self.prefix + name, lo, hi)
+
+    def bool(self, name):
+        return self.parent.bool(self.prefix + name)
+
+    def enum(self, name, cls):
+        return self.parent.enum(self.prefix + name, cls)
+
+    def enum_in(self, name, cls, allowed):
+        return self.parent.enum_in(self.prefix + name, cls, allowed)
+
+    def str_sym(self, name, corpus=None):
+        return self.parent.str_sym(self.prefix + name, corpus)
+
+    def new(self, cls, fields, ctor=None):
+        return self.parent.new(cls, fields, ctor)
+
+    def assume(self, cond):
+        self.parent.assume(cond)
+
+    def seq(self, name, builder, inv=None, pair_inv=None, max_len=None):
+        return self.parent.seq(self.prefix + name, builder, inv, pair_inv, max_len)
 
 
 # --------------------------------------------------------------------------------------------------- registry glue
